@@ -357,8 +357,20 @@ class Compiler:
         if not self.emitted_files:
             return False, None
 
+        # Build every container first: nothing is written if one cannot be built
+        results = []
         for ctx_start, ctx_end, file_format, filepath, *arguments in self.emitted_files:
-            result = file_formats[file_format](base, code, *arguments)
+            try:
+                results.append(file_formats[file_format](base, code, *arguments))
+            except struct.error:
+                reports.error(
+                    "too-large-image",
+                    (ctx_start, ctx_end, f"The image takes {len(code)} bytes, which format '{file_format}' cannot hold: its header stores the length in 16 bits.")
+                )
+        if len(results) < len(self.emitted_files):
+            return True, None
+
+        for (ctx_start, ctx_end, file_format, filepath, *arguments), result in zip(self.emitted_files, results):
             try:
                 with open_device(filepath, "wb") as f:
                     f.write(result)
